@@ -24,10 +24,14 @@ import (
 
 func init() { runners["lookup"] = runLookup }
 
-func nullNode(id enode.ID, i int) *enode.Node {
+func nullNode(id enode.ID, i int) *enode.Node { return nullNodeSeq(id, i, 0) }
+
+// nullNodeSeq: the record of that node with a given sequence number (peers hold records of different age for one node)
+func nullNodeSeq(id enode.ID, i int, seq uint64) *enode.Node {
 	var r enr.Record
 	r.Set(enr.IP(net.IP{10, 0, byte(i / 250), byte(1 + i%250)}))
 	r.Set(enr.UDP(30000))
+	r.SetSeq(seq)
 	return enode.SignNull(&r, id)
 }
 
@@ -160,6 +164,9 @@ func lookupRun(o *Out, r *rand.Rand, k int, thorough bool) {
 		for _, a := range answers[i] {
 			if a < 0 {
 				out = append(out, nil)
+			} else if (i+a)%3 == 0 && a < n {
+				// this peer holds a NEWER record of that node than the table or other peers do: the same node all the same
+				out = append(out, nullNodeSeq(ids[a], a, uint64(1+i%4)))
 			} else {
 				out = append(out, nodes[a])
 			}
